@@ -78,6 +78,8 @@ func runC11(c *ev.Ctx) {
 	c.Rule += "; plus sets of 1..5 weights below 2^32 whose true total lies above the maximum (just above, 2^31..2^32, beyond 2^32 where a 32-bit sum wraps back under the limit): Build must refuse them; " +
 		"plus sets counted whole (Count per member vs running sum, quorum flag, total and quorum unchanged) after the builder they came from, set.Builder() or set.Copy().Builder() was edited"
 	c11Extra(c)
+	c.Rule += "; plus counting sequences that also name IDs outside the set (the counted weight never shrinks or exceeds the total, moves only on a call reporting something new, the flag follows it, and naming every member afterwards counts the whole set)"
+	c11Strangers(c)
 
 	// ---- (a) totals sweep
 	type rng struct{ lo, hi uint64 }
